@@ -1,17 +1,71 @@
-//! C19 - not built yet.
-use crate::engine::{PropertyInfo, RunCtx};
+//! C19 - web IDE file API stays inside the project and never loses a concurrent edit.
+//!
+//! Search "paths": a scratch tree `S/{outside_a, project, outside_b}` with canary files,
+//! hidden entries and symlinks (directory, file, dangling, to-hidden, internal) is rebuilt
+//! for every case; a generated sequence of `WebIdeState` calls (every file operation x
+//! generated path strings x session kind x write_enabled) runs against it. After every
+//! call: `S` minus the project is byte-for-byte what it was (paths, content hashes,
+//! mtimes, link targets), no reply contains a canary string, every path a reply lists is
+//! an entry the project itself justifies and is not hidden, hidden entries are untouched,
+//! and calls by viewer / expired / unknown sessions or with write_enabled = false leave
+//! the whole tree unchanged.
+//!
+//! Search "conc": k sessions write one file from real threads following the client
+//! protocol or generated deviations; successes must have pairwise distinct expected
+//! versions, return expected + 1, chain on each other's content, and the file at the end
+//! is the content of the success with the highest version.
+
+use std::cell::RefCell;
+use std::collections::BTreeSet;
+use std::path::{Path, PathBuf};
+use std::sync::atomic::{AtomicU64, Ordering};
+use std::sync::Arc;
+
+use proptest::prelude::*;
+use serde::de::DeserializeOwned;
+use serde::Serialize;
+use serde_json::json;
+use trust_runtime::web::ide::{IdeError, IdeErrorKind, IdeRole, IdeTreeNode, WebIdeState};
+
+use crate::engine::tape::tape_strategy;
+use crate::engine::{Probe, PropertyInfo, RunCtx};
+
+#[path = "c19/conc.rs"]
+mod conc;
+#[path = "c19/fixture.rs"]
+mod fixture;
+#[path = "c19/paths.rs"]
+mod paths;
+
+use fixture::{Entry, Fixture, Snapshot};
+use paths::{Call, Op, PathCase, Sess};
+
+pub const KEY_F27: &str = "F27-file-symlink-escape";
+pub const KEY_F28: &str = "F28-listing-follows-outside-symlinks";
+pub const KEY_F29: &str = "F29-rename-entry-mkdir-before-session-gate";
+pub const KEY_F30: &str = "F30-listing-backslash-mapping-escape";
+pub const KEY_F31: &str = "F31-hidden-entry-through-internal-symlink";
 
 pub fn info() -> PropertyInfo {
     PropertyInfo {
         id: "C19",
         level: "exploration",
-        rule: "not built yet",
-        assumptions: &[],
-        workers_quick: 1,
-        workers_thorough: 1,
+        rule: "paths: a case = fresh scratch tree (canary files outside, hidden entries, dir/file/dangling/to-hidden/internal symlinks) + 1-7 generated WebIdeState calls; non-trivial = a call whose path/glob carries a traversal, hidden, symlink, absolute, backslash, percent-encoded, Unicode look-alike, NUL or over-long component and that got past the lexical normaliser to the file-system stage (reply Ok / NotFound / Conflict / Internal / TooLarge, or the canonical-parent 'escapes project root' refusal of a path without a lexical '..'); conc: a script with >= 2 writer threads whose write calls overlapped (ticket intervals intersect) and >= 1 conflict reply; distinct by SHA-256 of the call sequence / script",
+        assumptions: &[
+            "observation point is the WebIdeState API (what web.rs forwards request fields to verbatim); HTTP parsing/percent-decoding in web.rs is not exercised",
+            "session expiry is driven through hook H1 (injected clock), never through real time",
+            "symlinks, hidden entries and one backslash-named file are part of the generated fixture; the API itself cannot create symlinks",
+            "an 'unknown token' is treated like an expired session (after pruning they are the same server state)",
+            "hidden entries nested in a non-hidden directory may move/vanish only together with that directory when an editor renames/deletes it as a whole",
+            "the project picker (browse_directory, project_selection, set_active_project) is called for crash freedom and the session gate only, not under the confinement oracle",
+            "concurrency: real OS threads with generated yields/spins, 20-100 repetitions per script; interleavings are perturbed, not enumerated",
+            "Linux path semantics (backslash is an ordinary file-name byte)",
+        ],
+        workers_quick: 8,
+        workers_thorough: 16,
         address_space_limit: 0,
-        watchdog_quick_s: 600,
-        watchdog_thorough_s: 3600,
+        watchdog_quick_s: 900,
+        watchdog_thorough_s: 7200,
         run,
     }
 }
@@ -21,6 +75,798 @@ pub fn helper(_args: &[String]) -> Option<i32> {
     None
 }
 
+// ---------------------------------------------------------------------------------------
+// executing one call
+
+#[derive(Debug)]
+pub struct Outcome {
+    pub ok: bool,
+    pub kind: &'static str,
+    /// JSON of the Ok value, or the error message
+    pub reply: String,
+    /// workspace paths the reply enumerates
+    pub listed: Vec<String>,
+    /// normalised path of a successful create/rename/delete reply
+    pub result_path: Option<String>,
+}
+
+fn kind_name(k: IdeErrorKind) -> &'static str {
+    match k {
+        IdeErrorKind::Unauthorized => "Unauthorized",
+        IdeErrorKind::Forbidden => "Forbidden",
+        IdeErrorKind::NotFound => "NotFound",
+        IdeErrorKind::Conflict => "Conflict",
+        IdeErrorKind::InvalidInput => "InvalidInput",
+        IdeErrorKind::TooLarge => "TooLarge",
+        IdeErrorKind::LimitExceeded => "LimitExceeded",
+        IdeErrorKind::Internal => "Internal",
+    }
+}
+
+fn outcome<T: Serialize>(r: Result<T, IdeError>, listed: impl FnOnce(&T) -> Vec<String>) -> Outcome {
+    match r {
+        Ok(v) => Outcome {
+            ok: true,
+            kind: "Ok",
+            reply: serde_json::to_string(&v).unwrap_or_default(),
+            listed: listed(&v),
+            result_path: None,
+        },
+        Err(e) => Outcome {
+            ok: false,
+            kind: kind_name(e.kind()),
+            reply: e.to_string(),
+            listed: Vec::new(),
+            result_path: None,
+        },
+    }
+}
+
+fn tree_paths(nodes: &[IdeTreeNode], out: &mut Vec<String>) {
+    for n in nodes {
+        out.push(n.path.clone());
+        tree_paths(&n.children, out);
+    }
+}
+
+/// `Position` lives in a crate the harness does not depend on; it is `Deserialize`, so the
+/// call site's parameter type drives the conversion.
+fn pos<T: DeserializeOwned>(line: u32, character: u32) -> T {
+    serde_json::from_value(json!({"line": line, "character": character})).expect("position")
+}
+
+fn opt(s: &str) -> Option<&str> {
+    if s.is_empty() {
+        None
+    } else {
+        Some(s)
+    }
+}
+
+pub struct Env {
+    pub fx: Fixture,
+    pub ide: WebIdeState,
+    pub clock: Arc<AtomicU64>,
+    /// (token, lower bound of its last renewal)
+    editor: Option<(String, u64)>,
+    viewer: Option<(String, u64)>,
+}
+
+const TTL: u64 = 15 * 60;
+
+impl Env {
+    pub fn new(fx: Fixture) -> Env {
+        let clock = Arc::new(AtomicU64::new(10_000));
+        let c2 = clock.clone();
+        let ide = WebIdeState::with_clock_for_verif(
+            Some(fx.project.clone()),
+            Arc::new(move || c2.load(Ordering::SeqCst)),
+        );
+        Env {
+            fx,
+            ide,
+            clock,
+            editor: None,
+            viewer: None,
+        }
+    }
+
+    fn now(&self) -> u64 {
+        self.clock.load(Ordering::SeqCst)
+    }
+
+    fn live(&mut self, role: IdeRole) -> Result<String, String> {
+        let now = self.now();
+        let slot = match role {
+            IdeRole::Editor => &mut self.editor,
+            IdeRole::Viewer => &mut self.viewer,
+        };
+        if let Some((tok, renewed)) = slot {
+            if now < renewed.saturating_add(TTL) {
+                return Ok(tok.clone());
+            }
+        }
+        let s = self
+            .ide
+            .create_session(role)
+            .map_err(|e| format!("infrastructure: create_session failed: {e}"))?;
+        *slot = Some((s.token.clone(), now));
+        Ok(s.token)
+    }
+
+    /// Returns (token, is a valid editor session at call time).
+    fn token_for(&mut self, sess: &Sess) -> Result<(String, bool), String> {
+        match sess {
+            Sess::Editor => Ok((self.live(IdeRole::Editor)?, true)),
+            Sess::Viewer => Ok((self.live(IdeRole::Viewer)?, false)),
+            Sess::AlmostExpired => {
+                // a session created now and used TTL-1 seconds later is still valid
+                let s = self
+                    .ide
+                    .create_session(IdeRole::Editor)
+                    .map_err(|e| format!("infrastructure: create_session failed: {e}"))?;
+                let t = self.now().saturating_add(TTL - 1);
+                self.clock.store(t, Ordering::SeqCst);
+                self.editor = None;
+                self.viewer = None;
+                Ok((s.token, true))
+            }
+            Sess::Expired { editor, after } => {
+                let role = if *editor { IdeRole::Editor } else { IdeRole::Viewer };
+                let s = self
+                    .ide
+                    .create_session(role)
+                    .map_err(|e| format!("infrastructure: create_session failed: {e}"))?;
+                let t = self.now().saturating_add((*after).max(TTL));
+                self.clock.store(t, Ordering::SeqCst);
+                self.editor = None;
+                self.viewer = None;
+                Ok((s.token, false))
+            }
+            Sess::Unknown { variant } => {
+                let live = self.live(IdeRole::Editor)?;
+                let tok = match variant % 6 {
+                    0 => String::new(),
+                    1 => "not-a-token".to_string(),
+                    2 => live[..live.len() - 1].to_string(),
+                    3 => format!("{live}x"),
+                    4 => format!(" {live} "),
+                    _ => {
+                        let mut c: Vec<char> = live.chars().collect();
+                        c[0] = if c[0].is_ascii_lowercase() {
+                            c[0].to_ascii_uppercase()
+                        } else if c[0].is_ascii_uppercase() {
+                            c[0].to_ascii_lowercase()
+                        } else {
+                            '~'
+                        };
+                        c.into_iter().collect()
+                    }
+                };
+                Ok((tok, false))
+            }
+        }
+    }
+
+    fn renewed(&mut self, tok: &str) {
+        let now = self.now();
+        for slot in [&mut self.editor, &mut self.viewer] {
+            if let Some((t, r)) = slot {
+                if t == tok {
+                    *r = now;
+                }
+            }
+        }
+    }
+
+    fn subst(&self, s: &str) -> String {
+        s.replace("{S}", &self.fx.s.to_string_lossy())
+    }
+
+    pub fn exec(&mut self, call: &Call, tok: &str, valid_editor: bool) -> Outcome {
+        let ide = &self.ide;
+        let path = self.subst(&call.path);
+        let path2 = self.subst(&call.path2);
+        let path3 = self.subst(&call.path3);
+        let we = call.write_enabled;
+        let text = call.text.clone();
+        let mut out = match call.op {
+            Op::ListSources => outcome(ide.list_sources(tok), |v| v.clone()),
+            Op::ListTree => outcome(ide.list_tree(tok), |v| {
+                let mut o = Vec::new();
+                tree_paths(v, &mut o);
+                o
+            }),
+            Op::OpenSource => outcome(ide.open_source(tok, &path), |_| Vec::new()),
+            Op::CreateFile | Op::CreateDir => {
+                let r = ide.create_entry(tok, &path, call.op == Op::CreateDir, text, we);
+                let rp = r.as_ref().ok().map(|v| v.path.clone());
+                let mut o = outcome(r, |_| Vec::new());
+                o.result_path = rp;
+                o
+            }
+            Op::ApplySource => {
+                let expected = if call.expected == 0 {
+                    // client protocol: open first (only meaningful for a live editor; calling
+                    // open with an expired token would prune it before the write)
+                    if valid_editor {
+                        ide.open_source(tok, &path).map(|s| s.version).unwrap_or(1)
+                    } else {
+                        1
+                    }
+                } else {
+                    call.expected - 1
+                };
+                outcome(
+                    ide.apply_source(tok, &path, expected, text.unwrap_or_default(), we),
+                    |_| Vec::new(),
+                )
+            }
+            Op::RenameEntry => {
+                let r = ide.rename_entry(tok, &path, &path2, we);
+                let rp = r.as_ref().ok().map(|v| v.path.clone());
+                let mut o = outcome(r, |_| Vec::new());
+                o.result_path = rp;
+                o
+            }
+            Op::DeleteEntry => {
+                let r = ide.delete_entry(tok, &path, we);
+                let rp = r.as_ref().ok().map(|v| v.path.clone());
+                let mut o = outcome(r, |_| Vec::new());
+                o.result_path = rp;
+                o
+            }
+            Op::WorkspaceSearch => outcome(
+                ide.workspace_search(
+                    tok,
+                    text.as_deref().unwrap_or(""),
+                    opt(&path2),
+                    opt(&path3),
+                    200,
+                ),
+                |v| v.iter().map(|h| h.path.clone()).collect(),
+            ),
+            Op::FormatSource => outcome(ide.format_source(tok, &path, text), |_| Vec::new()),
+            Op::Diagnostics => outcome(ide.diagnostics(tok, &path, text), |_| Vec::new()),
+            Op::Hover => outcome(
+                ide.hover(tok, &path, text, pos(call.line, call.character)),
+                |_| Vec::new(),
+            ),
+            Op::Completion => outcome(
+                ide.completion(tok, &path, text, pos(call.line, call.character), Some(50)),
+                |_| Vec::new(),
+            ),
+            Op::Definition => outcome(
+                ide.definition(tok, &path, text, pos(call.line, call.character)),
+                |v| v.iter().map(|l| l.path.clone()).collect(),
+            ),
+            Op::References => outcome(
+                ide.references(tok, &path, text, pos(call.line, call.character), true),
+                |v| v.iter().map(|l| l.path.clone()).collect(),
+            ),
+            Op::RenameSymbol => outcome(
+                ide.rename_symbol(tok, &path, text, pos(call.line, call.character), &path2, we),
+                |v| v.changed_files.iter().map(|f| f.path.clone()).collect(),
+            ),
+            Op::FileSymbols => outcome(
+                ide.file_symbols(tok, &path, text.as_deref().unwrap_or(""), 200),
+                |v| v.iter().map(|h| h.path.clone()).collect(),
+            ),
+            Op::WorkspaceSymbols => outcome(
+                ide.workspace_symbols(tok, text.as_deref().unwrap_or(""), 200),
+                |v| v.iter().map(|h| h.path.clone()).collect(),
+            ),
+            Op::BrowseDirectory => outcome(ide.browse_directory(tok, opt(&path)), |_| Vec::new()),
+            Op::ProjectSelection => outcome(ide.project_selection(tok), |_| Vec::new()),
+            Op::SetActiveProject => outcome(ide.set_active_project(tok, &path), |_| Vec::new()),
+        };
+        if out.ok {
+            self.renewed(tok);
+        }
+        // keep replies bounded in messages
+        if out.reply.len() > 4000 {
+            let mut end = 4000;
+            while !out.reply.is_char_boundary(end) {
+                end -= 1;
+            }
+            let full = std::mem::take(&mut out.reply);
+            // the leak scan must see the whole reply: do it on the full text via a marker
+            if full.to_ascii_lowercase().contains(fixture::CANARY) {
+                let at = full.to_ascii_lowercase().find(fixture::CANARY).unwrap_or(0);
+                let mut s = at.saturating_sub(200);
+                while !full.is_char_boundary(s) {
+                    s -= 1;
+                }
+                let mut e = (at + 200).min(full.len());
+                while !full.is_char_boundary(e) {
+                    e -= 1;
+                }
+                out.reply = full[s..e].to_string();
+            } else {
+                out.reply = full[..end].to_string();
+            }
+        }
+        out
+    }
+}
+
+// ---------------------------------------------------------------------------------------
+// the oracle for one call
+
+fn hidden_only(s: &Snapshot) -> Snapshot {
+    s.iter()
+        .filter(|(p, _)| fixture::is_hidden_project_path(p))
+        .map(|(p, e)| (p.clone(), e.clone()))
+        .collect()
+}
+
+/// Suffix of a hidden project path starting at its first hidden component.
+fn hidden_suffix(p: &str) -> String {
+    let inner = p.strip_prefix("project/").unwrap_or(p);
+    let comps: Vec<&str> = inner.split('/').collect();
+    let at = comps.iter().position(|c| c.starts_with('.')).unwrap_or(0);
+    comps[at..].join("/")
+}
+
+fn check_hidden(call: &Call, out: &Outcome, before: &Snapshot, after: &Snapshot) -> Result<(), String> {
+    let hb = hidden_only(before);
+    let ha = hidden_only(after);
+    if hb == ha {
+        return Ok(());
+    }
+    let describe = || fixture::diff(before, after, fixture::is_hidden_project_path).join("; ");
+    let container_ok = |n: &str| !n.is_empty() && !n.split('/').any(|c| c.starts_with('.'));
+    match (call.op, out.ok, out.result_path.as_deref()) {
+        (Op::DeleteEntry, true, Some(n)) if container_ok(n) => {
+            // hidden entries may vanish only together with the non-hidden directory `n`
+            let prefix = format!("project/{n}/");
+            let expected: Snapshot = hb
+                .iter()
+                .filter(|(p, _)| !p.starts_with(&prefix))
+                .map(|(p, e)| (p.clone(), e.clone()))
+                .collect();
+            if expected == ha && !after.contains_key(&format!("project/{n}")) {
+                return Ok(());
+            }
+            Err(format!("hidden entries touched by delete_entry of {n:?}: {}", describe()))
+        }
+        (Op::RenameEntry, true, Some(m)) if container_ok(m) => {
+            // hidden entries may move only together with their non-hidden container, to `m`
+            let prefix = format!("project/{m}/");
+            let mut moved_from: Vec<(String, &Entry)> = Vec::new();
+            for (p, e) in &hb {
+                if ha.get(p) != Some(e) {
+                    moved_from.push((hidden_suffix(p), e));
+                }
+            }
+            let mut moved_to: Vec<(String, &Entry)> = Vec::new();
+            for (p, e) in &ha {
+                if hb.get(p) != Some(e) {
+                    if !p.starts_with(&prefix) {
+                        return Err(format!(
+                            "hidden entry appeared outside the rename target {m:?}: {}",
+                            describe()
+                        ));
+                    }
+                    moved_to.push((hidden_suffix(p), e));
+                }
+            }
+            moved_from.sort_by(|a, b| a.0.cmp(&b.0));
+            moved_to.sort_by(|a, b| a.0.cmp(&b.0));
+            if moved_from == moved_to {
+                return Ok(());
+            }
+            Err(format!("hidden entries touched by rename_entry to {m:?}: {}", describe()))
+        }
+        _ => Err(format!("hidden entries touched: {}", describe())),
+    }
+}
+
+fn describe_call(call: &Call) -> String {
+    let mut c = call.clone();
+    for s in [&mut c.path, &mut c.path2, &mut c.path3] {
+        if s.len() > 160 {
+            let mut end = 160;
+            while !s.is_char_boundary(end) {
+                end -= 1;
+            }
+            *s = format!("{}...[{} bytes]", &s[..end], s.len());
+        }
+    }
+    if let Some(t) = &mut c.text {
+        if t.len() > 60 {
+            *t = format!("{}...", &t[..60]);
+        }
+    }
+    format!(
+        "{:?}(session={:?}, write_enabled={}, path={:?}, path2={:?}, path3={:?}, text={:?}, expected={}, pos={}:{})",
+        c.op, c.session, c.write_enabled, c.path, c.path2, c.path3, c.text, c.expected, c.line, c.character
+    )
+}
+
+fn reached_fs(call: &Call, out: &Outcome) -> bool {
+    match out.kind {
+        "Ok" | "NotFound" | "Conflict" | "Internal" | "TooLarge" => true,
+        "Forbidden" => {
+            out.reply.contains("escapes project root")
+                && !call.path.split('/').any(|c| c.trim() == "..")
+                && !call.path2.split('/').any(|c| c.trim() == "..")
+                && !call.path.trim().starts_with('/')
+        }
+        _ => false,
+    }
+}
+
+pub fn check_call(
+    env: &mut Env,
+    call: &Call,
+    before: &Snapshot,
+    probe: &mut Probe,
+    idx: usize,
+) -> Result<Snapshot, String> {
+    let (tok, valid_editor) = env.token_for(&call.session)?;
+    let out = env.exec(call, &tok, valid_editor);
+    let after = fixture::snapshot(&env.fx.s);
+    let ctx = |what: String| -> String {
+        format!(
+            "call #{idx} {} -> {} {:?}: {what}",
+            describe_call(call),
+            out.kind,
+            if out.reply.len() > 300 {
+                let mut end = 300;
+                while !out.reply.is_char_boundary(end) {
+                    end -= 1;
+                }
+                &out.reply[..end]
+            } else {
+                &out.reply[..]
+            }
+        )
+    };
+
+    let after = match after {
+        Ok(a) => a,
+        Err(_) if !env.fx.s.is_dir() || !env.fx.project.is_dir() => {
+            return Err(ctx(
+                "the scratch root or the project directory itself was removed or replaced by the call".into(),
+            ));
+        }
+        Err(e) => return Err(format!("infrastructure: {e}")),
+    };
+
+    probe.label(format!("op={:?}", call.op));
+    probe.label(format!("outcome={:?}/{}", call.op, out.kind));
+    probe.label(format!(
+        "session={}",
+        match call.session {
+            Sess::Editor => "editor",
+            Sess::Viewer => "viewer",
+            Sess::Expired { .. } => "expired",
+            Sess::AlmostExpired => "almost_expired",
+            Sess::Unknown { .. } => "unknown_token",
+        }
+    ));
+    if !call.write_enabled && call.op.is_mutating() {
+        probe.label("write_disabled_mutating_call");
+    }
+
+    let may_mutate = call.op.is_mutating() && valid_editor && call.write_enabled;
+
+    // (1) the gate: viewer / expired / unknown sessions and write-disabled mode cannot mutate
+    // anything (project included). Read-only operations are held to the same rule when the
+    // session is not a valid editor.
+    if !valid_editor || (call.op.is_mutating() && !call.write_enabled) {
+        let d = fixture::diff(before, &after, |_| true);
+        if !d.is_empty() {
+            return Err(ctx(format!(
+                "a call that must not mutate anything changed the tree: {}",
+                d.join("; ")
+            )));
+        }
+        if out.ok && call.op.is_mutating() {
+            return Err(ctx("a mutating call without a valid editor session / with write disabled reported success".into()));
+        }
+    }
+
+    if call.op.is_picker() {
+        probe.label("picker_call");
+        return Ok(after);
+    }
+
+    // (2) nothing outside the project is created, modified or removed
+    let d = fixture::diff(before, &after, |p| !fixture::is_project_path(p));
+    if !d.is_empty() {
+        return Err(ctx(format!("outside of the project changed: {}", d.join("; "))));
+    }
+
+    // (3) nothing outside (or hidden) is read: no canary text in the reply, none copied into
+    // a visible project file
+    if out.reply.to_ascii_lowercase().contains(fixture::CANARY) {
+        return Err(ctx("reply contains canary text of a file outside the project / of a hidden entry".into()));
+    }
+    for (p, e) in &after {
+        if fixture::is_project_path(p) && !fixture::is_hidden_project_path(p) {
+            if let Entry::File { canary: true, .. } = e {
+                if before.get(p) != Some(e) {
+                    return Err(ctx(format!("canary text was copied into project file {p:?}")));
+                }
+            }
+        }
+    }
+
+    // (4) every path a reply enumerates is a non-hidden entry of the project itself
+    if !out.listed.is_empty() {
+        let legit = fixture::legit_listing(&env.fx.project);
+        let legit_before: BTreeSet<String> = before
+            .keys()
+            .filter_map(|p| p.strip_prefix("project/"))
+            .flat_map(|p| [p.to_string(), p.replace('\\', "/")])
+            .collect();
+        for p in &out.listed {
+            if p.split('/').any(|c| c.starts_with('.') && c != "." && c != "..") && !legit.contains(p) {
+                return Err(ctx(format!("reply lists hidden entry {p:?}")));
+            }
+            if !legit.contains(p) && !(may_mutate && legit_before.contains(p)) {
+                return Err(ctx(format!(
+                    "reply lists {p:?}, which is not an entry of the project (enumerated through a symlink that leaves the project or leads to a hidden entry)"
+                )));
+            }
+        }
+    }
+
+    // (5) hidden entries are never touched
+    check_hidden(call, &out, before, &after).map_err(&ctx)?;
+
+    // evidence
+    let mut cls: Vec<&str> = paths::classes(&call.path);
+    for extra in [&call.path2, &call.path3] {
+        if !extra.is_empty() {
+            for c in paths::classes(extra) {
+                if !cls.contains(&c) {
+                    cls.push(c);
+                }
+            }
+        }
+    }
+    for c in &cls {
+        probe.label(format!("class={c}"));
+    }
+    let adversarial = cls.iter().any(|c| {
+        matches!(
+            *c,
+            "traversal" | "hidden" | "symlink" | "absolute" | "backslash" | "percent" | "unicode" | "nul" | "long"
+        )
+    });
+    if adversarial && reached_fs(call, &out) {
+        probe.label("adversarial_path_reached_fs");
+        if out.ok {
+            probe.label("adversarial_path_call_ok");
+        }
+        NONTRIVIAL.with(|n| *n.borrow_mut() = true);
+    }
+    if may_mutate && out.ok {
+        probe.label("successful_mutation");
+    }
+    Ok(after)
+}
+
+thread_local! {
+    static NONTRIVIAL: RefCell<bool> = const { RefCell::new(false) };
+}
+
+/// Which known-open shapes a case must avoid.
+#[derive(Clone, Copy, Default)]
+pub struct OpenFindings {
+    pub f27: bool,
+    pub f28: bool,
+    pub f29: bool,
+    pub f30: bool,
+    pub f31: bool,
+}
+
+/// Exclude open known findings by construction: returns the case to run.
+fn apply_exclusions(case: &PathCase, open: OpenFindings, probe: &mut Probe) -> PathCase {
+    let mut c = case.clone();
+    if case.raw {
+        return c;
+    }
+    if open.f27 && c.links & (fixture::LINK_FILE | fixture::LINK_DANGLING) != 0 {
+        c.links &= !(fixture::LINK_FILE | fixture::LINK_DANGLING);
+        probe.excluded("F27: fixture without file symlinks that leave the project");
+    }
+    if open.f31 && c.links & fixture::LINK_TO_HIDDEN != 0 {
+        c.links &= !fixture::LINK_TO_HIDDEN;
+        probe.excluded("F31: fixture without the internal symlink to a hidden directory");
+    }
+    if open.f28
+        && c.links & (fixture::LINK_DIR_REL | fixture::LINK_DIR_ABS | fixture::LINK_FILE) != 0
+        && c.calls.iter().any(|k| k.op.is_listing())
+    {
+        c.links &= !(fixture::LINK_DIR_REL | fixture::LINK_DIR_ABS | fixture::LINK_FILE);
+        probe.excluded("F28: listing/search/analysis call => fixture without symlinks that leave the project");
+    }
+    if open.f30 {
+        let before = c.calls.len();
+        let bs = |k: &Call| {
+            matches!(k.op, Op::CreateFile | Op::CreateDir | Op::RenameEntry)
+                && (k.path.contains('\\') || k.path2.contains('\\'))
+        };
+        if c.calls.iter().any(|k| k.op.is_listing()) {
+            c.calls.retain(|k| !bs(k));
+            if c.links & fixture::FILE_BACKSLASH_NAME != 0 {
+                c.links &= !fixture::FILE_BACKSLASH_NAME;
+                probe.excluded("F30: listing call => no backslash-named file in the fixture");
+            }
+        }
+        if c.calls.len() != before {
+            probe.excluded("F30: listing call => no creation of names containing a backslash");
+        }
+    }
+    if open.f29 {
+        let before = c.calls.len();
+        c.calls.retain(|k| {
+            !(k.op == Op::RenameEntry
+                && (!matches!(k.session, Sess::Editor | Sess::AlmostExpired))
+                && k.write_enabled)
+        });
+        if c.calls.len() != before {
+            probe.excluded("F29: rename_entry by a non-editor session with write enabled");
+        }
+    }
+    c
+}
+
+pub fn run_path_case(
+    case: &PathCase,
+    scratch: &Path,
+    open: OpenFindings,
+    probe: &mut Probe,
+) -> Result<(), String> {
+    let case = apply_exclusions(case, open, probe);
+    let fx = Fixture::build(&scratch.join("S"), case.links)?;
+    let mut env = Env::new(fx);
+    NONTRIVIAL.with(|n| *n.borrow_mut() = false);
+    let mut snap = fixture::snapshot(&env.fx.s).map_err(|e| format!("infrastructure: {e}"))?;
+    probe.label(format!("fixture_links={:#09b}", case.links));
+    let mut result = Ok(());
+    for (i, call) in case.calls.iter().enumerate() {
+        match check_call(&mut env, call, &snap, probe, i) {
+            Ok(after) => snap = after,
+            Err(e) => {
+                result = Err(e);
+                break;
+            }
+        }
+        if call.op == Op::SetActiveProject {
+            break;
+        }
+    }
+    env.fx.remove();
+    if result.is_ok() && NONTRIVIAL.with(|n| *n.borrow()) {
+        let key = serde_json::to_vec(&case).unwrap_or_default();
+        probe.nontrivial(&key);
+        let first = case.calls.iter().find(|c| {
+            !paths::classes(&c.path).is_empty() || !paths::classes(&c.path2).is_empty()
+        });
+        if let Some(c) = first {
+            probe.sample(json!({"search": "paths", "links": case.links, "calls": case.calls.len(), "example_call": describe_call(c)}));
+        }
+    }
+    result
+}
+
+/// Bounds the work proptest spends shrinking after the first failure of a search: a passing
+/// shrink candidate of the concurrency search costs a full script (seconds), and the engine
+/// allows 4096 shrink steps. Once the budget is used up every further candidate is answered
+/// "passes" without running it, so shrinking stops at the smallest failing case seen so far
+/// (which did fail when it ran). Recorded reproducers (`raw`) run in the replay tier, before the
+/// generated cases, and never start the budget.
+struct ShrinkBudget {
+    failed: std::cell::Cell<bool>,
+    left: std::cell::Cell<u32>,
+}
+
+impl ShrinkBudget {
+    fn new(runs_after_first_failure: u32) -> Self {
+        ShrinkBudget {
+            failed: std::cell::Cell::new(false),
+            left: std::cell::Cell::new(runs_after_first_failure),
+        }
+    }
+    fn allow(&self) -> bool {
+        if !self.failed.get() {
+            return true;
+        }
+        if self.left.get() == 0 {
+            return false;
+        }
+        self.left.set(self.left.get() - 1);
+        true
+    }
+    fn seen(&self, r: Result<(), String>) -> Result<(), String> {
+        if r.is_err() {
+            self.failed.set(true);
+        }
+        r
+    }
+}
+
+fn scratch_dir(ctx: &RunCtx) -> PathBuf {
+    ctx.out_dir
+        .join(format!("scratch-{}-{}", ctx.worker, std::process::id()))
+}
+
 fn run(ctx: &mut RunCtx) {
-    ctx.inconclusive("check not built yet");
+    let tier = ctx.tier;
+    let scratch = scratch_dir(ctx);
+    if let Err(e) = std::fs::create_dir_all(&scratch) {
+        ctx.inconclusive(format!("cannot create scratch directory {}: {e}", scratch.display()));
+        return;
+    }
+    let open = OpenFindings {
+        f27: ctx.is_open(KEY_F27),
+        f28: ctx.is_open(KEY_F28),
+        f29: ctx.is_open(KEY_F29),
+        f30: ctx.is_open(KEY_F30),
+        f31: ctx.is_open(KEY_F31),
+    };
+    let infra: RefCell<Vec<String>> = RefCell::new(Vec::new());
+
+    // (A) path confinement and the session / write gate
+    {
+        let scratch = scratch.clone();
+        let infra = &infra;
+        let budget = ShrinkBudget::new(1500);
+        ctx.search(
+            "paths",
+            tape_strategy(140).prop_map(|t| paths::case_from_tape(&t)),
+            tier.pick(6_000, 300_000),
+            move |case: &PathCase, probe: &mut Probe| {
+                if !budget.allow() {
+                    return Ok(());
+                }
+                match run_path_case(case, &scratch, open, probe) {
+                    Err(e) if e.starts_with("fixture:") || e.starts_with("infrastructure:") => {
+                        infra.borrow_mut().push(e);
+                        Ok(())
+                    }
+                    other if case.raw => other,
+                    other => budget.seen(other),
+                }
+            },
+        );
+    }
+
+    // (B) concurrent writers
+    {
+        let scratch = scratch.clone();
+        let infra = &infra;
+        let budget = ShrinkBudget::new(48);
+        ctx.search(
+            "conc",
+            tape_strategy(400).prop_map(move |t| conc::case_from_tape(&t, tier)),
+            tier.pick(40, 2_000),
+            move |case: &conc::ConcCase, probe: &mut Probe| {
+                if !budget.allow() {
+                    return Ok(());
+                }
+                match conc::run_case(case, &scratch, probe) {
+                    Err(e) if e.starts_with("fixture:") || e.starts_with("infrastructure:") => {
+                        infra.borrow_mut().push(e);
+                        Ok(())
+                    }
+                    other if case.raw => other,
+                    other => budget.seen(other),
+                }
+            },
+        );
+    }
+
+    let _ = std::fs::remove_dir_all(&scratch);
+    let mut infra = infra.into_inner();
+    infra.sort();
+    infra.dedup();
+    for e in infra.into_iter().take(3) {
+        ctx.inconclusive(e);
+    }
 }
